@@ -47,6 +47,12 @@ def expand(b, rnd, norders):
                      writes=sorted(b['writes']), acc={m: accmode for m in mods}, exported=mods,
                      host=b.get('host') or {m: m for m in mods})
             out.append(c)
+            if accmode == 'init' and any(len(b['att'][m]) >= 2 for m in mods) and not b['wrong'] \
+                    and all(v == 'none' for v in b['fail'].values()):
+                # a module with several attachments: the shutdown order is computed by walking sets of module names,
+                # so the same graph is run under other names, too
+                for ren in NAMESETS[:2 if norders == 1 else 4]:
+                    out.append(dict(c, rename=ren))
             if accmode != 'never' and any(b['att'][m] for m in mods):
                 # the same with the attachments fixed by a subclass (bare class attribute) instead of the configuration
                 out.append(dict(c, fixed=[m for m in mods if b['att'][m]]))
@@ -68,9 +74,42 @@ def _healthy(b):
     return not any(cyc(m, {m}) for m in mods)
 
 
+NAMESETS = [{'a': 'p', 'b': 'mf', 'c': 'x1'}, {'a': 'x1', 'b': 'p', 'c': 'mf'}, {'a': 'zz', 'b': 'k9', 'c': 'heater'},
+            {'a': 'm3', 'b': 'm1', 'c': 'm2'}]
+
+
+def _renamed(cfg, ren):
+    """the same configuration under other module names (the order in which sets / dicts of names are walked
+    depends on the names): run it, then translate the log back"""
+    f = lambda n: ren.get(n, n)
+    c = dict(cfg)
+    c['order'] = [f(n) for n in cfg['order']]
+    c['att'] = {f(k): [f(t) for t in v] for k, v in cfg['att'].items()}
+    c['wrong'] = [[f(u), f(t)] for u, t in cfg['wrong']]
+    c['fail'] = {f(k): v for k, v in cfg['fail'].items()}
+    for key in ('polls', 'writes', 'exported', 'fixed'):
+        if key in cfg:
+            c[key] = [f(n) for n in cfg[key]]
+    for key in ('acc', 'polldur', 'readdur'):
+        if key in cfg:
+            c[key] = {f(k): v for k, v in cfg[key].items()}
+    if 'host' in cfg:
+        c['host'] = {f(k): f(v) for k, v in cfg['host'].items()}
+    c.pop('rename', None)
+    return c
+
+
 def _run(cfg):
     from ..lifeworld import run_config
-    log = run_config(cfg)
+    if cfg.get('rename'):
+        back = {v: k for k, v in cfg['rename'].items()}
+        log = run_config(_renamed(cfg, cfg['rename']))
+        for e in log:
+            for key in ('m', 'u', 't', 'got'):
+                if isinstance(e.get(key), str) and e[key] in back:
+                    e[key] = back[e[key]]
+    else:
+        log = run_config(cfg)
     head = {'ev': 'cfg', 'order': cfg['order'], 'att': cfg['att'], 'wrong': cfg['wrong'], 'fail': cfg['fail'],
             'polls': cfg['polls'], 'writes': cfg['writes'], 'host': cfg.get('host') or {m: m for m in cfg['order']}}
     return [head] + log
@@ -149,6 +188,15 @@ def run(chk):
                 cfgs.append(dict(order=order, att=att, wrong=[], fail={m: 'none' for m in order}, polls=['x', 'y'],
                                  writes=['y'], acc={m: acc for m in order}, exported=['x', 'y'],
                                  pinata={'p': ['y']}))
+    # a module with two attachments, one of them shared: users are shut down before what they are attached to -
+    # whatever the names are (the order is computed by walking sets of module names)
+    for att in ({'a': ['b', 'c'], 'b': [], 'c': []}, {'a': ['c', 'b'], 'b': ['c'], 'c': []}, {'a': ['b', 'c'], 'b': ['c'], 'c': []},
+                {'a': ['b'], 'b': [], 'c': ['b', 'a']}):
+        for order in itertools.permutations('abc'):
+            for ren in [None] + NAMESETS:
+                c = dict(order=list(order), att=att, wrong=[], fail={m: 'none' for m in 'abc'}, polls=['a'], writes=[],
+                         acc={m: 'init' for m in 'abc'}, exported=['a', 'b', 'c'])
+                cfgs.append(dict(c, rename=ren) if ren else c)
     # a pinata attached to another pinata: both are scanned, whichever is declared first
     for order in (['p', 'q', 'y', 'z'], ['q', 'p', 'y', 'z']):
         for att in ({'p': ['q'], 'q': [], 'y': [], 'z': []}, {'p': ['q'], 'q': [], 'y': ['z'], 'z': ['q']}):
